@@ -138,6 +138,10 @@ func genCase(t *rapid.T) replyCase {
 		op = "GetDevice"
 	}
 	call := spec.Call{Op: op, Serial: gen.Serial(t), Card: gen.U32(t, "req.card"), Index: gen.U32(t, "req.index"), Profile: gen.U8(t, "req.profile")}
+	if rapid.IntRange(0, 3).Draw(t, "req.card.wiegand") == 0 {
+		// a card number of the form people use: facility code and number, FFFNNNNN
+		call.Card = uint32(rapid.IntRange(0, 255).Draw(t, "req.card.facility"))*100000 + uint32(rapid.IntRange(0, 65535).Draw(t, "req.card.number"))
+	}
 	cfg := hook.ClientCfg{Debug: gen.Debug(t, "debug")}
 	if rapid.Bool().Draw(t, "has_broadcast") {
 		cfg.HasBroadcast, cfg.BroadcastIP, cfg.BroadcastPort = true, [4]byte{192, 168, 1, 255}, gen.Port(t, "bport")
